@@ -26,14 +26,10 @@ _UI_ONLY_KEYS = {"preprocessor_view"}
 
 
 def _strip_ui_only(obj: Any) -> Any:
+    # ``preprocessor_view`` is a top-level block of the preprocessor metadata;
+    # deeper mappings are keyed by user-chosen parameter / variable names.
     if isinstance(obj, dict):
-        return {
-            key: _strip_ui_only(value)
-            for key, value in obj.items()
-            if key not in _UI_ONLY_KEYS
-        }
-    if isinstance(obj, list):
-        return [_strip_ui_only(value) for value in obj]
+        return {key: value for key, value in obj.items() if key not in _UI_ONLY_KEYS}
     return obj
 
 
@@ -140,11 +136,22 @@ def compute_node_semantic_id(preproc_meta: Dict[str, Any]) -> str:
     payload = _strip_ui_only(preproc_meta)
 
     def _canonicalize(obj: Any) -> Any:
-        if isinstance(obj, dict):
-            return {k: _canonicalize(v) for k, v in obj.items() if k != "expr"}
-        if isinstance(obj, list):
-            return [_canonicalize(v) for v in obj]
-        return obj
+        # ``expr`` is the raw source kept beside ``sig`` in one
+        # ``param_expressions`` entry.  The entries themselves (and the
+        # ``variables`` mapping) are keyed by user-chosen names, which are
+        # identity-bearing even when a name happens to be ``expr``.
+        exprs = obj.get("param_expressions") if isinstance(obj, dict) else None
+        if not isinstance(exprs, dict):
+            return obj
+        sanitized = {
+            name: (
+                {k: v for k, v in entry.items() if k != "expr"}
+                if isinstance(entry, dict)
+                else entry
+            )
+            for name, entry in exprs.items()
+        }
+        return {**obj, "param_expressions": sanitized}
 
     canonical = _canonicalize(payload)
     payload = json.dumps(canonical, sort_keys=True, separators=(",", ":"))
